@@ -19,13 +19,20 @@ type StreamClass struct {
 func headerLine(b []byte) (line []byte, n int, state string, reason string) {
 	i := bytes.IndexByte(b, '\n')
 	if i < 0 {
-		// no LF yet: invalid already if a CR is followed by a non-LF byte
-		for j := 0; j+1 < len(b); j++ {
-			if b[j] == '\r' {
-				return nil, 0, "invalid", "CR-not-followed-by-LF"
+		// no LF yet: the line can still become valid only if everything after the
+		// marker is digits, optionally ending in a CR, and it is not longer than
+		// the longest valid header ("$536870912\r" = 11 bytes before the LF)
+		body := b[1:]
+		for j, c := range body {
+			if c == '\r' {
+				if j != len(body)-1 {
+					return nil, 0, "invalid", "CR-not-followed-by-LF"
+				}
+			} else if c < '0' || c > '9' {
+				return nil, 0, "invalid", "non-digit-in-header"
 			}
 		}
-		if len(b) > 32 {
+		if len(b) > 12 {
 			return nil, 0, "invalid", "header-line-too-long"
 		}
 		return nil, 0, "prefix", ""
